@@ -25,11 +25,16 @@ class Sched:
         self.watchdog = watchdog
         self.lock_owner = {}   # id(lock wrapper) -> (tid, depth)
         self.stuck = False
+        self.known = None      # ids of the instrumented objects of THIS execution (None: accept all)
 
     # called by instrumented objects from worker threads
     def yp(self, action, obj=None):
         tid = threading.current_thread().name
         if tid not in self.threads:
+            return
+        if obj is not None and self.known is not None and id(obj) not in self.known:
+            # an instrumented object of an EARLIER execution (its finaliser happens to run in this thread): not a
+            # shared access of this program
             return
         with self.cv:
             self.pending[tid] = (action, obj)
@@ -51,8 +56,11 @@ class Sched:
         """progs: {tid: callable}; choose(live, enabled, trace) -> tid to run next (may return a
         disabled one: no effect).  Returns results per thread."""
         global _S
+        import gc
         _S = self
         self.threads = {}
+        gc_was = gc.isenabled()
+        gc.disable()           # no finalisers of old ports in the middle of a worker thread's step
 
         def body(name, f):
             self.yp('start')
@@ -93,6 +101,8 @@ class Sched:
                 self.cur = pick
                 self.cv.notify_all()
         _S = None
+        if gc_was:
+            gc.enable()
         self.decisions = decisions
         return self.results
 
